@@ -25,11 +25,44 @@ func expand(v gn.Val, pad int) gn.Val {
 		switch v.Kind {
 		case "string":
 			v.S += strings.Repeat("x", pad)
-		case "bytes":
+		case "bytes", "legacy-bytes":
 			v.S += strings.Repeat("\x00\xfey", pad/3+1)[:pad]
+		case "deprecated", "legacy-ietf":
+			// a JSON string literal grows inside its quotes; other JSON texts stay as they are
+			if n := len(v.S); n >= 2 && v.S[0] == '"' && v.S[n-1] == '"' {
+				v.S = v.S[:n-1] + strings.Repeat("x", pad) + `"`
+			}
 		}
 	}
 	return v
+}
+
+// mkUpdate is the update a device sends for a value: a TypedValue in Update.val, or - the legacy kinds - a gnmi.Value
+// in the deprecated Update.value field, val unset.
+func mkUpdate(p *pb.Path, v gn.Val) *pb.Update {
+	switch v.Kind {
+	case "deprecated":
+		return gn.MakeUpdate(p, v)
+	case "legacy-ietf":
+		return &pb.Update{Path: p, Value: &pb.Value{Value: []byte(v.S), Type: pb.Encoding_JSON_IETF}}
+	case "legacy-bytes":
+		return &pb.Update{Path: p, Value: &pb.Value{Value: []byte(v.S), Type: pb.Encoding_BYTES}}
+	}
+	return &pb.Update{Path: p, Val: v.TV()}
+}
+
+// fillVal is the value of the i-th leaf of a "fill" op.
+func fillVal(o Op, i int) gn.Val {
+	s := fmt.Sprintf("f%d.%d", o.Ver, i)
+	switch o.Enc {
+	case "json":
+		return gn.Val{Kind: "deprecated", S: `"` + s + `"`}
+	case "ietf":
+		return gn.Val{Kind: "legacy-ietf", S: `"` + s + `"`}
+	case "bytes":
+		return gn.Val{Kind: "legacy-bytes", S: s}
+	}
+	return gn.Val{Kind: "string", S: s}
 }
 
 // batchOf: how many leaves of a "fill" travel in one notification.
@@ -55,7 +88,7 @@ func contKey(o Op) []string {
 // fillOp is the i-th leaf of a "fill" op as a plain update.
 func fillOp(o Op, i int) Op {
 	return Op{Kind: "update", Origin: o.Origin, PTarget: o.PTarget, NoPrefix: o.NoPrefix, Path: []gn.Elem{{Name: "fill"}, {Name: "e", Keys: map[string]string{"id": fmt.Sprint(i)}}, {Name: "v"}},
-		Val: gn.Val{Kind: "string", S: fmt.Sprintf("f%d.%d", o.Ver, i)}, Pad: o.Pad, Bulk: o.Bulk}
+		Val: fillVal(o, i), Pad: o.Pad, Bulk: o.Bulk}
 }
 
 // prefixOf is the prefix message of the notification an op is sent as: origin and target as the device writes them
@@ -133,13 +166,23 @@ func (m *model) apply(o Op, st *stats) {
 			if u.Pad > 0 {
 				s.padded = true
 			}
+			if isLegacy(u.Val.Kind) {
+				s.noteLegacy(u.Val, u.Pad)
+			}
 		})
+	}
+	// plain: a plain leaf is written; two legacy values meeting on one leaf is worth a label
+	plain := func(p Op) {
+		if old := m.units[gn.Key(opKey(p))]; old != nil && old.Kind != "atomic" && isLegacy(old.Val.Kind) && isLegacy(p.Val.Kind) {
+			note(func(s *stats) { s.legacyRewrite = true })
+		}
+		m.setPlain(p)
 	}
 	switch o.Kind {
 	case "sync":
 		m.synced = true
 	case "update":
-		m.setPlain(o)
+		plain(o)
 		noteVal(o)
 	case "delete":
 		m.remove(opKey(o), "", st)
@@ -147,14 +190,24 @@ func (m *model) apply(o Op, st *stats) {
 		// one notification: a delete and an update that the delete covers (a gNMI "replace").
 		// Its updates are applied, then its deletes; a delete never removes what the same
 		// notification wrote (same timestamp), only what was there before.
-		note(func(s *stats) { s.replaceNoti = true; s.kinds[o.Val.Kind] = true })
+		note(func(s *stats) {
+			s.replaceNoti = true
+			s.kinds[o.Val.Kind] = true
+			if isLegacy(o.Val.Kind) {
+				s.legacyMulti = true
+				s.noteLegacy(o.Val, o.Pad)
+			}
+		})
 		m.remove(delKeyOfMulti(o), gn.Key(opKey(o)), st)
-		m.setPlain(o)
+		plain(o)
 	case "atomic":
 		k := gn.Key(contKey(o))
 		if old := m.units[k]; old != nil && old.Kind == "atomic" {
 			note(func(s *stats) {
 				s.atomicResent = true
+				if len(o.Ups) > 0 && len(old.Ups) > 0 && isLegacy(o.Ups[0].Val.Kind) && isLegacy(old.Ups[0].Val.Kind) {
+					s.legacyAtomicResent = true
+				}
 				for i := 1; i < len(o.Ups) && i < len(old.Ups); i++ {
 					if fmt.Sprint(expand(old.Ups[i].Val, old.Ups[i].Pad)) != fmt.Sprint(expand(o.Ups[i].Val, o.Ups[i].Pad)) {
 						s.atomicTailChanged = true
@@ -165,8 +218,11 @@ func (m *model) apply(o Op, st *stats) {
 		c := o
 		m.units[k] = &c
 		note(func(s *stats) { s.atomic = true })
-		for _, u := range o.Ups {
+		for i, u := range o.Ups {
 			noteVal(Op{Origin: o.Origin, Prefix: o.Prefix, Path: u.Path, Val: u.Val, Pad: u.Pad})
+			if isLegacy(u.Val.Kind) {
+				note(func(s *stats) { s.legacyAtomic = true; s.legacyAtomicFirst = s.legacyAtomicFirst || i == 0 })
+			}
 		}
 	case "group":
 		note(func(s *stats) { s.group = true })
@@ -175,7 +231,10 @@ func (m *model) apply(o Op, st *stats) {
 			if m.units[gn.Key(opKey(p))] != nil {
 				note(func(s *stats) { s.groupResent = true })
 			}
-			m.setPlain(p)
+			if isLegacy(p.Val.Kind) {
+				note(func(s *stats) { s.legacyGroup = true })
+			}
+			plain(p)
 			noteVal(p)
 		}
 	case "fill":
@@ -183,7 +242,14 @@ func (m *model) apply(o Op, st *stats) {
 			m.setPlain(fillOp(o, i))
 		}
 		note(func(s *stats) {
-			s.kinds["string"] = true
+			if o.N > 0 {
+				v := fillVal(o, 0)
+				s.kinds[v.Kind] = true
+				if isLegacy(v.Kind) {
+					s.legacyFill = true
+					s.noteLegacy(v, o.Pad)
+				}
+			}
 			s.keyed = true
 			if o.N > s.fill {
 				s.fill = o.N
@@ -219,7 +285,66 @@ func (m *model) apply(o Op, st *stats) {
 				}
 			}
 		}
+		// what the device reports on its next stream: legacy values among it?
+		for _, u := range m.units {
+			if legacyAny(u) {
+				note(func(s *stats) { s.legacyAcrossBreak = true })
+				break
+			}
+		}
 	}
+}
+
+// legacyHead: the first (or only) update of the notification the collector keeps for this unit carries a legacy value -
+// the update on which a coalesced delivery carries its duplicate count.
+func (m *model) legacyHead(u *Op) bool {
+	if u.Kind == "atomic" {
+		return len(u.Ups) > 0 && isLegacy(u.Ups[0].Val.Kind)
+	}
+	return isLegacy(u.Val.Kind)
+}
+
+// legacyAny: some value of the unit travels in the legacy encoding.
+func legacyAny(u *Op) bool {
+	for _, up := range u.Ups {
+		if u.Kind == "atomic" && isLegacy(up.Val.Kind) {
+			return true
+		}
+	}
+	return u.Kind != "atomic" && isLegacy(u.Val.Kind)
+}
+
+// legacyHeads: key (with target) of every leaf that is such a head -> its value in the reference view.
+func (m *model) legacyHeads(target string, into map[string]interface{}) {
+	for k, u := range m.units {
+		if !m.legacyHead(u) {
+			continue
+		}
+		full := append([]string{target}, gn.Unkey(k)...)
+		val, pad := u.Val, u.Pad
+		if u.Kind == "atomic" {
+			full = append(full, gn.IndexOfElems(u.Ups[0].Path, false)...)
+			val, pad = u.Ups[0].Val, u.Ups[0].Pad
+		}
+		into[gn.Key(full)] = scalarOf(expand(val, pad))
+	}
+}
+
+// written: the keys (without target) of the units an op writes (bulk fills left out).
+func written(o Op) []string {
+	switch o.Kind {
+	case "update", "multi":
+		return []string{gn.Key(opKey(o))}
+	case "atomic":
+		return []string{gn.Key(contKey(o))}
+	case "group":
+		var ks []string
+		for _, u := range o.Ups {
+			ks = append(ks, gn.Key(opKey(Op{Origin: o.Origin, Prefix: o.Prefix, Path: u.Path})))
+		}
+		return ks
+	}
+	return nil
 }
 
 func (m *model) keys() []string {
@@ -262,18 +387,18 @@ func wire(o Op, ts *int64) []*pb.SubscribeResponse {
 		return []*pb.SubscribeResponse{syncResp()}
 	case "update":
 		return []*pb.SubscribeResponse{resp(&pb.Notification{Timestamp: next(ts), Prefix: prefixOf(o, o.Prefix, o.Element),
-			Update: []*pb.Update{{Path: gn.Path("", "", o.Path, o.Element, 0), Val: expand(o.Val, o.Pad).TV()}}})}
+			Update: []*pb.Update{mkUpdate(gn.Path("", "", o.Path, o.Element, 0), expand(o.Val, o.Pad))}})}
 	case "delete":
 		return []*pb.SubscribeResponse{resp(&pb.Notification{Timestamp: next(ts), Prefix: prefixOf(o, nil, false), Delete: []*pb.Path{gn.Path("", "", o.Path, false, 0)}})}
 	case "multi":
 		all := append(append([]gn.Elem{}, o.Prefix...), o.Path...)
 		return []*pb.SubscribeResponse{resp(&pb.Notification{Timestamp: next(ts), Prefix: prefixOf(o, nil, false),
 			Delete: []*pb.Path{gn.Path("", "", all[:o.Cut], false, 0)},
-			Update: []*pb.Update{{Path: gn.Path("", "", all, false, 0), Val: expand(o.Val, o.Pad).TV()}}})}
+			Update: []*pb.Update{mkUpdate(gn.Path("", "", all, false, 0), expand(o.Val, o.Pad))}})}
 	case "atomic", "group":
 		n := &pb.Notification{Timestamp: next(ts), Prefix: prefixOf(o, o.Prefix, false), Atomic: o.Kind == "atomic"}
 		for _, u := range o.Ups {
-			n.Update = append(n.Update, &pb.Update{Path: gn.Path("", "", u.Path, false, 0), Val: expand(u.Val, u.Pad).TV()})
+			n.Update = append(n.Update, mkUpdate(gn.Path("", "", u.Path, false, 0), expand(u.Val, u.Pad)))
 		}
 		return []*pb.SubscribeResponse{resp(n)}
 	case "fill":
@@ -282,7 +407,7 @@ func wire(o Op, ts *int64) []*pb.SubscribeResponse {
 			n := &pb.Notification{Timestamp: next(ts), Prefix: prefixOf(o, nil, false)}
 			for j := i; j < o.N && j < i+batch; j++ {
 				f := fillOp(o, j)
-				n.Update = append(n.Update, &pb.Update{Path: gn.Path("", "", f.Path, false, 0), Val: expand(f.Val, f.Pad).TV()})
+				n.Update = append(n.Update, mkUpdate(gn.Path("", "", f.Path, false, 0), expand(f.Val, f.Pad)))
 			}
 			out = append(out, resp(n))
 		}
@@ -314,7 +439,7 @@ func (m *model) report(ts *int64) []*pb.SubscribeResponse {
 			order = append(order, bk)
 		}
 		all := append(append([]gn.Elem{}, u.Prefix...), u.Path...)
-		n.Update = append(n.Update, &pb.Update{Path: gn.Path("", "", all, false, 0), Val: expand(u.Val, u.Pad).TV()})
+		n.Update = append(n.Update, mkUpdate(gn.Path("", "", all, false, 0), expand(u.Val, u.Pad)))
 		if len(n.Update) >= batchOf(*u) {
 			n.Timestamp = next(ts)
 			out = append(out, resp(n))
